@@ -37,10 +37,17 @@ META = {
         "times 0..3, required_vehicles in {1,2,3}, fleets of 1-4 vehicles given as int+vehicle_capacity or as a Vehicle list "
         "(capacity inf or 1..8), Customer objects or tuples, in ~50% of cases a generated non-default subset of the objective "
         "keywords distance_weight/vehicle_weight/tw_penalty/capacity_penalty/sync_penalty (vehicle_weight>0 in most sets), seeds, "
-        "max_iter in {5,50,300}; non-trivial = >=1 multi-vehicle customer, n>=3, fleet>=2. vrp_operators: "
+        "max_iter in {5,50,100,300}, on_progress none / observer / stop-at-k with progress_interval 1..25; capacities also "
+        "'tight' (fleet cannot carry everybody); non-trivial = >=1 multi-vehicle customer, n>=3, fleet>=2. vrptw_boundary: "
+        "instances on which ALNS keeps improving late (5-7 customers, finite windows, several needing 2-3 of 2-3 vehicles), "
+        "3-6 consecutive seeds each with max_iter in {100,101,200,300} (ALNS segment ends) under an observing callback, plus "
+        "one early-stopped run per seed; default or penalty-dominated weights (2^20); non-trivial = multi-vehicle customer. "
+        "vrp_operators: "
         "RuleBasedStateMachine from VRPState.from_problem over random/worst/related/route/sync removal and "
         "greedy/regret/sync-aware insertion with generated degrees, n_routes, k and one random.Random(seed) per step, plus a "
-        "query rule calling vrp_objective(state, **generated keywords incl. unassigned_penalty) against the recomputed sum, "
+        "query rule calling vrp_objective(state, **generated keywords incl. unassigned_penalty) against the recomputed sum and "
+        "a generator rule that emits one ALNS-like round (non-sync removal, greedy/regret repair, sync-aware repair) as three "
+        "ordinary steps, "
         "<=30 steps, invariant after every step; non-trivial = the history contains an effective removal after an "
         "effective insertion and the instance has >=1 multi-vehicle customer. Distinct = canonical JSON of the case/history."
     ),
